@@ -10,7 +10,8 @@ from .program import Program
 from .report import Ctx
 
 # floors: numbers counted on the reference tree (see DESIGN.md section 6)
-FLOOR_REPO_EXPANSIONS = 65
+FLOOR_REPO_TV = 55
+FLOOR_REPO_EXPANSIONS = 55
 
 
 class Env(object):
@@ -120,6 +121,8 @@ class Env(object):
                 tot[k] = tot.get(k, 0) + (r.stats.get(k) or 0)
         ctx.counts["lts_totals_repo"] = tot
         if "TV" in rules:
+            ctx.floor("repository lexers whose definition was read back from the test source and "
+                      "translation-validated", sum(1 for r in res if "tv_pairs" in r.stats), FLOOR_REPO_TV)
             ctx.count("programs", sum(1 for r in res if "tv_pairs" in r.stats))
             ctx.count("tv_related_pairs", sum(r.stats.get("tv_pairs", 0) for r in res))
             ctx.count("disagreements_checked", sum(r.stats.get("tv_comparisons", 0) for r in res))
